@@ -804,7 +804,8 @@ class PartitionBulkIndexParamSource:
 
     @property
     def percent_completed(self):
-        return self.current_bulk / self.total_bulks
+        # a group of clients whose share of the corpus is empty has no bulks at all
+        return self.current_bulk / self.total_bulks if self.total_bulks > 0 else 1.0
 
 
 class OpenPointInTimeParamSource(ParamSource):
